@@ -58,8 +58,7 @@ class Check(HCheck):
         obs = []
         for wid in g.weids():
             pl = g.prefixes[wid]
-            for order in list(itertools.permutations(pl))[:6]:
-                order = list(order)
+            for order in al.few_orders(pl):
                 for inte, outb in SW:
                     try:
                         ref = [tuple(x) for x in t.get_webentity_pagelinks(wid, order, include_inbound=False, include_internal=inte, include_outbound=outb)]
